@@ -56,6 +56,8 @@ type Config struct {
 	InterBlockCache []bool `json:"interblock_cache"`
 	ClockSkewMs     []int  `json:"clock_skew_ms"`
 	NaturalMapOrder bool   `json:"natural_map_order"`
+	ELMaxOps        int    `json:"el_max_ops,omitempty"` // user operations per execution block (0: 12)
+	Bursts          bool   `json:"bursts,omitempty"`     // generators may emit bursts larger than the per-block hand-over caps
 
 	FaultFree bool               `json:"fault_free"`
 	Weights   map[string]float64 `json:"weights,omitempty"` // step-kind weights of the profile (after swarm selection)
